@@ -18,10 +18,16 @@ def model_states(obs):
     """Per hook index i: model resumability *before* message i executes (len = len(hook)+1)."""
     res = [True]
     resumable = True
+    bundling = set()  # run keys with an event bundle open: a checkpoint is rejected then and changes nothing
     for h in obs.hook:
         cmd = h["msg"].command
+        if cmd == "create":
+            bundling.add(h["msg"].run)
+        elif cmd in ("save", "drop", "close_run"):
+            bundling.discard(h["msg"].run)
         if cmd == "checkpoint":
-            resumable = True
+            if not bundling:
+                resumable = True
         elif cmd == "clear_checkpoint":
             resumable = False
         res.append(resumable)
@@ -395,7 +401,12 @@ def oracle_c10(case, obs, res):
     paused_after = [s for s, m in zip(obs.states, obs.state_meta) if s[0] == "paused" and m["total"] >= i["total"]]
     if paused_after:
         res.fail("paused_in_nonresumable_section", f"engine entered 'paused' after a {i['inj']['do']} in a non-resumable section", **F())
-    handled = [e for e in obs.plog.events if e["t"] == "except" and e.get("action") != "reraise"]
+    from bluesky.utils import IllegalMessageSequence
+
+    # a swallowed IllegalMessageSequence (rejected message) is not the interruption: the plan simply went on
+    handled = [
+        e for e in obs.plog.events if e["t"] == "except" and e.get("action") != "reraise" and not isinstance(e.get("exc"), IllegalMessageSequence)
+    ]
     if handled:
         # the plan itself swallowed or transformed the FailedPause: what happens next is the plan's doing
         res.classes.append("plan_handled_failed_pause")
